@@ -178,7 +178,21 @@ impl<SystemType : System> SysCache<SystemType>
             {
                 match system.rename(&cache_path, &target_path)
                 {
-                    Err(error) => RestoreResult::SystemError(error),
+                    Err(error) =>
+                    {
+                        /*  The cache is shared by all rule threads and entries are named after their
+                            content, so the thread of another rule that needs byte-identical content
+                            may have taken this entry between the check above and the rename.  Then
+                            the entry is simply not there (any more); it is not a malfunction. */
+                        if error == SystemError::RenameFromNonExistent || ! system.is_file(&cache_path)
+                        {
+                            RestoreResult::NotThere
+                        }
+                        else
+                        {
+                            RestoreResult::SystemError(error)
+                        }
+                    },
                     Ok(()) => RestoreResult::Done
                 }
             }
